@@ -134,6 +134,13 @@ def r17_3(ctx):
                      for wl in whiles) for (n, c) in wake)
         ctx.ob('R17.3', '%s:wake-token-only-for-a-grabbed-sleeper' % tag, ok, fi, wake[0][1],
                '_wait_semaphore.release() only after _sleeping_count.acquire(False) succeeded')
+        # stale acknowledgements of waiters that timed out are taken off *before* a sleeper is woken: otherwise the
+        # notifier's wait for "the sleeper woke" is satisfied by a stale token and it takes the wake token back
+        ok = bool(recon) and all(cfg.dominated_by(n, recon)[0] for (n, c) in wake)
+        ctx.ob('R17.3', '%s:timed-out-waiters-reconciled-before-the-wake-up' % tag, ok, fi, wake[0][1],
+               'the reconciliation loop runs before any wake token is posted' if ok else
+               'the reconciliation of timed-out waiters runs after the wake-up: a stale acknowledgement satisfies '
+               '_woken_count.acquire() at once and the re-zero takes the wake token back -- the notification is lost')
         # and the converse: a grabbed sleeper (its registration is consumed) always gets its token -- otherwise it
         # sleeps on, uncounted, and no later notify can reach it
         grabbed = q.outcome_edges(fi, grab, True)
